@@ -5,6 +5,7 @@
 -/
 import DtnVerif.Lemmas.TcpclSys
 import DtnVerif.Lemmas.TcpclSysLift
+import DtnVerif.Lemmas.TcpclLive
 namespace DtnVerif
 namespace Tcpcl
 
@@ -164,6 +165,50 @@ theorem C01_success_after_receipt (cfgA cfgB : Cfg) (sch : List SysEv)
     exact hit
   exact ⟨one s.a s.b sa kb tA pB, one s.b s.a sb ka tB pA⟩
 
+/-- **No lost wake-up (progress is always possible).** In every reachable state of the two-endpoint
+    system, an endpoint that is not closed and has a transfer being segmented has either an idle
+    source for `_process_queue` pending or octets in its message-level transmit buffer (so its TX
+    callback runs and re-triggers the queue when the buffer drains); one that has queued transfers
+    and none in progress has an idle source pending; and the pending flag is never set without a
+    source. (The zero-length-bundle stall repaired in 46e8b2d was a violation of exactly this.) -/
+theorem C01_no_lost_wakeup (cfgA cfgB : Cfg) (sch : List SysEv)
+    (a1 : 0 < cfgA.segInit) (a2 : cfgA.privExt = false) (a3 : 0 < cfgA.segMru)
+    (b1 : 0 < cfgB.segInit) (b2 : cfgB.privExt = false) (b3 : 0 < cfgB.segMru)
+    (hwf : ∀ pre, pre <+: sch → SysWF (runSys (initSys cfgA cfgB) pre))
+    (hs : ∀ ev ∈ sch, ev.sendOK) :
+    WakeInv (runSys (initSys cfgA cfgB) sch).a ∧ WakeInv (runSys (initSys cfgA cfgB) sch).b := by
+  refine wake_sys_run sch _ (sysInv_init cfgA cfgB a1 a2 a3 b1 b2 b3) ⟨?_, ?_⟩ hwf hs
+  · exact wake_step _ _ a2 (by simp) (wake_init cfgA)
+  · exact wake_step _ _ b2 (by simp) (wake_init cfgB)
+
+/-- **Delivery at quiescence.** In any reachable state of the two-endpoint system in which the
+    direction A → B has drained — both endpoints open, A not terminating, A's two transmit buffers and
+    the wire empty, no `_process_queue` idle source pending at A — B has processed exactly the message
+    sequence A emitted and has completely received *every* bundle A's user ever queued: same ids,
+    same octets, same order, each exactly once. (With `C01_no_lost_wakeup`: as long as that is not
+    yet the case, some internal event is enabled.) -/
+theorem C01_quiescent_delivery (cfgA cfgB : Cfg) (sch : List SysEv)
+    (a1 : 0 < cfgA.segInit) (a2 : cfgA.privExt = false) (a3 : 0 < cfgA.segMru)
+    (b1 : 0 < cfgB.segInit) (b2 : cfgB.privExt = false) (b3 : 0 < cfgB.segMru)
+    (hwf : ∀ pre, pre <+: sch → SysWF (runSys (initSys cfgA cfgB) pre))
+    (hs : ∀ ev ∈ sch, ev.sendOK) :
+    let s := runSys (initSys cfgA cfgB) sch
+    (Drained s.a s.b s.toB → s.b.processed = s.a.emitted
+        ∧ s.b.rxLog = s.a.sendLog.map (fun it => (it.tid, it.data)))
+    ∧ (Drained s.b s.a s.toA → s.a.processed = s.b.emitted
+        ∧ s.a.rxLog = s.b.sendLog.map (fun it => (it.tid, it.data))) := by
+  intro s
+  have hi : SysInv s := sysInv_run sch _ (sysInv_init cfgA cfgB a1 a2 a3 b1 b2 b3) hwf hs
+  have hw : SysWF s := hwf sch (List.prefix_refl _)
+  obtain ⟨wa, wb⟩ := C01_no_lost_wakeup cfgA cfgB sch a1 a2 a3 b1 b2 b3 hwf hs
+  constructor
+  · intro hd
+    have := drained_delivery s.a s.b s.toB hi.ia hi.ib wa hw.1 hi.wireB hd
+    exact ⟨this.2.2.1, this.2.2.2⟩
+  · intro hd
+    have := drained_delivery s.b s.a s.toA hi.ib hi.ia wb hw.2 hi.wireA hd
+    exact ⟨this.2.2.1, this.2.2.2⟩
+
 /-! ### non-vacuity: a concrete two-endpoint run meeting every hypothesis and delivering a bundle -/
 
 namespace Example
@@ -184,6 +229,15 @@ example : (List.range (sched.length + 1)).all
 example : (runSys (initSys cfgA cfgB) sched).b.rxLog = [(1, [1, 2, 3])]
     ∧ (runSys (initSys cfgA cfgB) sched).a.successLog = [1]
     ∧ (runSys (initSys cfgA cfgB) sched).a.sendLog.map (·.data) = [[1, 2, 3]] := by decide +kernel
+instance (w r : Ep) (p : Bytes) : Decidable (Drained w r p) :=
+  decidable_of_iff (w.closed = false ∧ r.closed = false ∧ w.inTerm = false ∧ w.txBuf = [] ∧ w.connBuf = []
+      ∧ p = [] ∧ w.pqSources = 0)
+    ⟨fun ⟨a, b, c, d, e, f, g⟩ => ⟨a, b, c, d, e, f, g⟩, fun h => ⟨h.1, h.2, h.3, h.4, h.5, h.6, h.7⟩⟩
+/-- after one more firing of A's idle source the direction A → B is drained: the premise of
+    `C01_quiescent_delivery` is satisfiable (and its conclusion visible) -/
+example : let s := runSys (initSys cfgA cfgB) (sched ++ [.atA .procQueue])
+    Drained s.a s.b s.toB ∧ s.b.rxLog = s.a.sendLog.map (fun it => (it.tid, it.data)) ∧ s.a.successLog = [1] := by
+  decide +kernel
 end Example
 
 end Tcpcl
